@@ -102,7 +102,7 @@ static int idx_of(const void *e)
 }
 static struct elem *elem_of_bn(const struct cstl_bintree_node *bn)
 {
-    int i = idx_of((void *)((uintptr_t)bn - offsetof(struct elem, hn)));
+    int i = idx_of((void *)((uintptr_t)bn - offsetof(struct elem, hn) - offsetof(struct cstl_heap_node, bn)));      /* the tree node need not be the first member of the heap node */
     return i < 0 ? NULL : &pool[i];
 }
 static int clr_count[MAXN], clr_bad;
